@@ -16,9 +16,15 @@ def _impl_worker(args):
     modname, sc = args
     mod = importlib.import_module(modname)
     try:
-        return mod.run_impl(sc)
+        r = mod.run_impl(sc)
     except BaseException as e:  # noqa: BLE001 - the driver itself must never die silently
         return {"driver_error": repr(e)}
+    try:
+        import pickle
+        pickle.dumps(r)
+    except Exception:  # noqa: BLE001 - an observation holding a library object: keep its text only
+        r = json.loads(json.dumps(r, default=repr))
+    return r
 
 
 def run_impl_parallel(modname, scs, procs=16, chunksize=64):
